@@ -239,6 +239,9 @@ func checkC11(c *Ctx) {
 	c.Rule("C11-R20", "typed and pasted text is not dropped on the way to the queue: every select that sends a decoded event has only shutdown signals as alternatives (an alternative that does something else and lets the loop move on loses the event; = C05-R1)")
 	c.Expect("C11-R20", 1)
 	c.asRule("C05-R1", "C11-R20", func() { c05Sends(c, p) })
+	c.Rule("C11-R21", "focus reports arrive as focus events, text as key events: whatever a parser removes from the input with the answer 'complete' has been appended to the event list (no report is consumed silently because of what came before; = C05-R12)")
+	c.Expect("C11-R21", 6)
+	checkConsumedDelivers(c, p, "C11-R21", nil)
 	pr := p.Fn("tcell:(*tScreen).parseRune")
 	if pr == nil {
 		c.Undecided("C11-R1", "parseRune", "-", "not found")
